@@ -1,4 +1,5 @@
 import SradModel.Model.HostLoop
+import SradModel.Model.Topic
 import SradModel.Drv.Util
 
 /-!
@@ -7,6 +8,10 @@ Driver for M10 (component `hostloop`). Requests (strings are hex of their UTF-8 
 * `hostloop new <loop|loopr|app> <cfg> <host> <now>` — `AppEventLoop::new`; cfg = `all` | `single:<g>` |
   `custom:<item>,…` (`custom:_` = empty list) with item = `g.<g>` | `n.<g>.<n>`
 * `hostloop ev online|offline|other <now>`, `hostloop ev state <host> <0|1> <ts> <now>`
+* `hostloop wire <topic> <payload> <now>` — a received publish as raw bytes (hex): the event is what the
+  model of `topic_and_payload_to_event` (`Topic.parse`, certificate reader `StateJson.parseCert`) makes
+  of it; only STATE / invalid publishes belong to this request language (a node or device message is
+  `bad-op`)
 * `hostloop cancel <now>`, `hostloop timeout <now>`
 * `hostloop match <filter> <topic>`, `hostloop valid <name>`,
   `hostloop topic state <h>` | `node <g> <v> <n>` | `device <g> <v> <n> <d>`
@@ -69,6 +74,16 @@ def hlRunStep (h : HLState) (i : In) (now : String) : HLState × String :=
     ({ h with st := some s' }, hlShowStep e (if h.app then runSees r else r))
   | _, _ => (h, "bad-op")
 
+/-- the `Event` a received publish becomes (`srad_client::topic_and_payload_to_event`), as an input of
+the host loop: a STATE message of any host, or an invalid publish (`other`). `none`: a node / device
+message or a panic - not produced by the `wire` generator. -/
+def hlEvOfWire (topic payload : List UInt8) : Option Ev :=
+  match Srad.Topic.parse validUtf8 (fun _ => some ()) topic payload with
+  | .state hb on ts =>
+    (String.fromUTF8? ⟨hb.toArray⟩).map fun s => Ev.state s.toList on ts
+  | .invalid _ _ _ => some .other
+  | _ => none
+
 def stepHostLoop (h : HLState) : List String → HLState × String
   | ["new", mode, cfg, host, now] =>
     if mode ≠ "loop" ∧ mode ≠ "loopr" ∧ mode ≠ "app" then (h, "bad-op") else
@@ -87,6 +102,13 @@ def stepHostLoop (h : HLState) : List String → HLState × String
       if on = "1" then hlRunStep h (.ev (.state host true ts)) now
       else if on = "0" then hlRunStep h (.ev (.state host false ts)) now
       else (h, "bad-op")
+    | _, _ => (h, "bad-op")
+  | ["wire", t, p, now] =>
+    match unhex t, unhex p with
+    | some t, some p =>
+      match hlEvOfWire t p with
+      | some e => hlRunStep h (.ev e) now
+      | none => (h, "bad-op")
     | _, _ => (h, "bad-op")
   | ["cancel", now] => hlRunStep h .cancel now
   | ["timeout", now] => hlRunStep h .timeout now
